@@ -598,7 +598,11 @@ def _(o, rng):
     st = jget(o.headblock(), "state")
     if not st:
         return None
-    i = rng.randrange(len(st))
+    # prefer a digest that another version uses too: then E050 is the only broken clause (no E107)
+    def used_elsewhere(d):
+        return sum(1 for _, vb in o.versions() if isinstance(jget(vb, "state"), O) and any(k == d for k, _ in jget(vb, "state"))) >= 2
+    cands = [i for i, (d, _) in enumerate(st) if used_elsewhere(d)] or list(range(len(st)))
+    i = rng.choice(cands)
     d = st[i][0]
     nd = d[:-1] + ("0" if d[-1] != "0" else "1")
     if nd in [x for x, _ in o.manifest()]:
@@ -624,7 +628,7 @@ def _(o, rng):
     # a digest some state uses, but without any content path (objects without prior inventories:
     # those would still list the removed files)
     m = o.manifest()
-    if not m or _prior_dirs(o):
+    if not m or _prior_dirs(o) or jget(o.t, "fixity") is not None:
         return None
     i = rng.randrange(len(m))
     for p in m[i][1]:
@@ -820,6 +824,42 @@ def _(o, rng):
     d, ps = blk[0]
     nd = d[:-1] + ("0" if d[-1] != "0" else "1")
     jset(o.t, "fixity", O([(a, O([(nd, ps)]))]))
+    o.save()
+    return (INVALID, VALID)
+
+
+@edit("fixity-own-algorithm-wrong")
+def _(o, rng):
+    """a fixity block under the object's own digest algorithm whose digest does not match the file
+    (regression test of fix b049716: fixity_check kept one expected digest per algorithm, so in an object
+    with prior version inventories this value was never compared with the file)"""
+    if not o.manifest():
+        return None
+    blk = _fixity_block(o, o.alg, rng, 1)
+    d, ps = blk[0]
+    nd = d[:-1] + ("0" if d[-1] != "0" else "1")
+    jset(o.t, "fixity", O([(o.alg, O([(nd, ps)]))]))
+    o.save()
+    return (INVALID, VALID)
+
+
+@edit("fixity-own-algorithm-hides-manifest")
+def _(o, rng):
+    """the manifest digest of one file is wrong (manifest and states agree with each other), a fixity
+    entry of the same algorithm carries the file's real digest (regression test of fix b049716: the fixity
+    entry replaced the manifest digest as THE expectation for that algorithm)"""
+    m = o.manifest()
+    if not m or _prior_dirs(o):
+        return None
+    i = rng.randrange(len(m))
+    d, ps = m[i]
+    nd = d[:-1] + ("0" if d[-1] != "0" else "1")
+    if any(x == nd for x, _ in m):
+        return None
+    m[i] = (nd, ps)
+    for _, vb in o.versions():
+        jrename(jget(vb, "state"), d, nd)
+    jset(o.t, "fixity", O([(o.alg, O([(d.lower(), list(ps))]))]))
     o.save()
     return (INVALID, VALID)
 
@@ -1148,6 +1188,28 @@ def _(o, rng):
     else:
         d = d.rstrip()[:-1] + b', "x": NaN}'
     vallib.write_inventory(o.path, d, alg=o.alg, head=o.head)
+    return both(INVALID)
+
+
+@edit("inventory-not-object")
+def _(o, rng):
+    """the root inventory is well-formed JSON but not an object (string, number, array, true, null)"""
+    d = rng.choice([b'"inventory"', b"7", b"[]", b"true", b"null", b'[{"id": "x"}]', b"1.5e3", b'""'])
+    vallib.write_inventory(o.path, d, alg=o.alg, head=o.head)
+    return both(INVALID)
+
+
+@edit("prior-inventory-not-object")
+def _(o, rng):
+    ds = _prior_dirs(o)
+    if not ds:
+        return None
+    d = rng.choice(ds)
+    p = os.path.join(d, "inventory.json")
+    a = jget(jload(open(p, "rb").read()), "digestAlgorithm")
+    out = rng.choice([b'"inventory"', b"7", b"[]", b"true", b"null", b"{}"])
+    rewrite(p, out)
+    rewrite(p + "." + a, (hashlib.new(a, out).hexdigest() + " inventory.json\n").encode())
     return both(INVALID)
 
 
@@ -1509,7 +1571,7 @@ def run(ctx):
     ctx.coverage["verdict_matrix"] = dict(matrix)
     ctx.coverage["matrix_by_kind"] = {k_: dict(v) for k_, v in by_kind.items()}
     ctx.coverage["traces_validated_against_impl"] = 2 * len(corpus)
-    ctx.coverage["known_class_objects"] = n_known
+    ctx.coverage["known_class_objects"] = {KNOWN_SLUG: n_known}
     ctx.assumptions.append("object-level rules (directory structure, sidecars, cross-inventory consistency, fixity) of Model/Validate.v are tied to the specification by the fixture corpus and the second independent validator, not by a Coq theorem; digests enter the model as computed by Python hashlib")
     ctx.assumptions.append("rocfl's verdict is the exit status of the release CLI `rocfl validate -p` (2 = invalid) built from the current tree")
     return common.finish_with_proof(ctx, proof,
